@@ -269,6 +269,9 @@ func ExtractCRC(payload []byte) (uint32, error) {
 	}
 
 	end := PSIHeaderLen + sectionLength
+	if len(payload) < int(end) {
+		return 0, gots.ErrPMTParse
+	}
 
 	// The CRC is the last 4-bytes of the PSI Table.
 	data := payload[end-4 : end]
